@@ -218,6 +218,18 @@ def c04(run):
                  "Trace_Automata.cfg", ["C04:", "minimize", "compile/"], workers=workers(run), nontrivial=nt,
                  need={"compiled": lambda r: r.get("style") == 9, "big": lambda r: r.get("op") == "minimize" and len(r["before"]["final"]) >= 8},
                  timeout=3000)
+    # the refinement itself, step by step (hooks in minimizer.rs, spec Hopcroft.tla)
+    run.model("MC_Hopcroft", "MC_Hopcroft3.cfg" if run.tier == "thorough" else "MC_Hopcroft.cfg", workers=workers(run),
+              timeout=3000, note="every behaviour of the Hopcroft state machine on every DFA <= 3 states x 2 (3) letters "
+                                 "ends in the Myhill-Nerode partition and never separates equivalent states")
+    scen = os.path.join(run.workdir, "dfa_scen.ndjson")
+    out3, info3 = _drive(run, "hopcroft", sub="hopcroft", extra=["--scen", scen])
+    run.validate("hopcroft", os.path.join(out3, "hopcroft.ndjson"), "Trace_Hopcroft", "Trace_Hopcroft.cfg",
+                 ["HOP:", "minimize"], workers=workers(run), timeout=3000,
+                 nontrivial=lambda r: sum(1 for e in r.get("events", []) if e.get("k") == "pick") >= 2,
+                 need={"rounds": lambda r: sum(1 for e in r.get("events", []) if e.get("k") == "pick") >= 3,
+                       "self_refine": lambda r: any(e.get("k") == "pick" and set(e["b"]) & set(e["pred"]) for e in r.get("events", []))})
+    run.extra["hooked_refinement_runs"] = info3
     run.exhaustive = True
     run.extra["exhaustive_scope"] = "all complete DFAs with <= 3 states over 2 letters (TLC-enumerated)"
 
